@@ -16,7 +16,7 @@ from ..flow import Flow, lexically_inside
 
 FILESET = "typhon/files/fileset.py"
 HCOMMON = "typhon/files/handlers/common.py"
-EXPECT = {"C15.filesystem": 1, "C15.order": 7, "C15.load": 3, "C15.register": 1, "C15.format": 3, "C15.lookup": 3, "C15.entries": 2}
+EXPECT = {"C15.filesystem": 1, "C15.order": 8, "C15.load": 3, "C15.register": 1, "C15.format": 7, "C15.answer": 1, "C15.lookup": 3, "C15.entries": 2}
 
 
 def _write_mode(call):
@@ -29,6 +29,34 @@ def _write_mode(call):
     if isinstance(mode, ast.Constant) and isinstance(mode.value, str):
         return any(ch in mode.value for ch in "wax+")
     return True
+
+
+def _cache_writers(ctx):
+    """methods of FileSet that (directly, or through another method of self) store into self.info_cache -> {name: how}"""
+    mod = ctx.repo.mod(FILESET)
+    direct, calls = {}, {}
+    for q, fn in mod.funcs.items():
+        if fn.cls is None or fn.cls.name != "FileSet":
+            continue
+        nm = q.split(".", 1)[1]
+        for n_ in ast.walk(fn.node):
+            if isinstance(n_, ast.Call) and isinstance(n_.func, ast.Attribute):
+                if norm(n_.func.value) == "self.info_cache" and n_.func.attr in ("update", "pop", "clear", "setdefault", "popitem"):
+                    direct.setdefault(nm, "self.info_cache.%s" % n_.func.attr)
+                if norm(n_.func.value) == "self":
+                    calls.setdefault(nm, set()).add(n_.func.attr)
+            elif isinstance(n_, (ast.Assign, ast.AugAssign, ast.Delete)):
+                for t_ in (n_.targets if isinstance(n_, (ast.Assign, ast.Delete)) else [n_.target]):
+                    if norm(t_).startswith("self.info_cache"):
+                        direct.setdefault(nm, "stores %s" % norm(t_)[:40])
+    out = dict(direct)
+    for _ in range(4):
+        for nm, cs in calls.items():
+            if nm not in out:
+                hit = sorted(c for c in cs if c in out)
+                if hit:
+                    out[nm] = "calls self.%s" % hit[0]
+    return out
 
 
 def rule_order(ctx):
@@ -78,6 +106,22 @@ def rule_order(ctx):
     ctx.ob("FileSet.save_cache.untouched", not touch, "other calls that remove, truncate or overwrite the target: %s" % touch,
            "none - until the rename the old cache file stays in place (remove-then-move is not atomic)",
            node=movers[0] if movers else f.node, func=f)
+    # 2c. what is saved is the cache as it is: save_cache itself does not change self.info_cache - neither directly nor through a method of
+    # the fileset that does (load_cache before writing would bring back entries that reset_cache / a changed time_coverage dropped)
+    writers_ = _cache_writers(ctx)
+    changed_ = []
+    for n_ in ast.walk(f.node):
+        if isinstance(n_, ast.Call) and isinstance(n_.func, ast.Attribute) and norm(n_.func.value) == "self" and n_.func.attr in writers_:
+            changed_.append("self.%s(...) [%s]" % (n_.func.attr, writers_[n_.func.attr]))
+        elif isinstance(n_, ast.Call) and norm(n_.func).startswith("self.info_cache.") and n_.func.attr in ("update", "pop", "clear", "setdefault", "popitem"):
+            changed_.append(norm(n_)[:60])
+        elif isinstance(n_, (ast.Assign, ast.AugAssign, ast.Delete)):
+            for t_ in (n_.targets if isinstance(n_, (ast.Assign, ast.Delete)) else [n_.target]):
+                if norm(t_).startswith("self.info_cache"):
+                    changed_.append(norm(n_)[:60])
+    ctx.ob("FileSet.save_cache.as_it_is", not changed_, "changes of self.info_cache inside save_cache: %s" % (changed_ or "none"),
+           "none: the file holds exactly the entries of the cache at the time of the call (entries dropped by reset_cache are not brought back from the old file)",
+           node=f.node, func=f, witness=None if not changed_ else {"history": "save; reset_cache(); find() over a part; save", "file": "old entries of the untouched part are back"})
     if len(good) != 1:
         return
     m = good[0]
@@ -276,6 +320,8 @@ def _const_arg(a):
         return a
     if isinstance(a, ast.Attribute) and isinstance(a.value, ast.Name) and a.value.id in ("cls", "self", "FileInfo") and a.attr in _CLASS_CONSTS:
         return _CLASS_CONSTS[a.attr]
+    if isinstance(a, ast.Name) and a.id in _CLASS_CONSTS:
+        return _CLASS_CONSTS[a.id]
     return a
 
 
@@ -312,6 +358,11 @@ def rule_format(ctx):
         for st_ in cd.body:
             if isinstance(st_, ast.Assign) and len(st_.targets) == 1 and isinstance(st_.targets[0], ast.Name) and isinstance(st_.value, ast.Constant):
                 _CLASS_CONSTS[st_.targets[0].id] = st_.value
+    for st_ in w.module.tree.body:
+        # (module-level string constants: the format hoisted out of the class)
+        if isinstance(st_, ast.Assign) and len(st_.targets) == 1 and isinstance(st_.targets[0], ast.Name) and isinstance(st_.value, ast.Constant) \
+                and isinstance(st_.value.value, str):
+            _CLASS_CONSTS.setdefault(st_.targets[0].id, st_.value)
     writers = []
     wnodes = helper_closure(w)
     for c in [c_ for n_ in wnodes for c_ in calls_in(n_)]:
@@ -362,6 +413,96 @@ def rule_format(ctx):
         return False
     ctx.ob("FileInfo.from_json_dict.fields", len(readers) >= 1 and all(parses_times(c) for c, _ in readers),
            "reader calls: %s" % fact, "parses json_dict['times'][i]", node=readers[0][0], func=r)
+
+
+def _entries_of(w, wflow, ret):
+    """key -> value expression of the dictionary a function returns: a display, dict(k=v, ...), or a local that starts as one of these and is
+    filled by `name[<constant>] = value` statements (straight line, every one of them before the return)"""
+    def start(v):
+        if isinstance(v, ast.Dict) and all(k is not None and isinstance(k, ast.Constant) for k in v.keys):
+            return {k.value: x for k, x in zip(v.keys, v.values)}
+        if isinstance(v, ast.Call) and norm(v.func) == "dict" and not v.args and all(k.arg for k in v.keywords):
+            return {k.arg: k.value for k in v.keywords}
+        return None
+    v = ret.value
+    got = start(v) or start(wflow.resolve(v, at=ret, depth=3))
+    if got is not None and not isinstance(v, ast.Name):
+        return got
+    if not isinstance(v, ast.Name):
+        raise AnalysisError("to_json_dict: the returned value is not a dictionary display with constant keys")
+    name = v.id
+    defs = [d for d in wflow.defs(name, ret) if d != "param"]
+    if len(defs) != 1 or not isinstance(defs[0], ast.Assign):
+        raise AnalysisError("to_json_dict: the returned dictionary %s has not one definition" % name)
+    got = start(defs[0].value)
+    if got is None:
+        raise AnalysisError("to_json_dict: %s does not start as a dictionary display" % name)
+    for st in w.body:
+        if isinstance(st, ast.Assign) and len(st.targets) == 1 and isinstance(st.targets[0], ast.Subscript) and norm(st.targets[0].value) == name:
+            if not isinstance(st.targets[0].slice, ast.Constant):
+                raise AnalysisError("to_json_dict: a key of %s is not a constant" % name)
+            got[st.targets[0].slice.value] = st.value
+    for n_ in walk_no_nested(w.node):
+        if isinstance(n_, ast.Subscript) and isinstance(n_.ctx, ast.Store) and norm(n_.value) == name and not any(
+                isinstance(st, ast.Assign) and st.targets[0] is n_ for st in w.body):
+            raise AnalysisError("to_json_dict: %s is filled inside a compound statement" % name)
+        if isinstance(n_, ast.Call) and isinstance(n_.func, ast.Attribute) and norm(n_.func.value) == name and n_.func.attr in ("update", "pop", "setdefault", "clear"):
+            raise AnalysisError("to_json_dict: %s.%s(...) not read" % (name, n_.func.attr))
+    return got
+
+
+def rule_attr(ctx):
+    """the attributes go into the file and come back as they are"""
+    ctx.rule("C15.format", "T3", "to_json_dict stores path and attributes as they are, from_json_dict hands them to the constructor as they are")
+    w = ctx.func(HCOMMON, "FileInfo.to_json_dict")
+    r = ctx.func(HCOMMON, "FileInfo.from_json_dict")
+    wflow, rflow = Flow(w), Flow(r)
+    rets = [x for x in walk_no_nested(w.node) if isinstance(x, ast.Return) and x.value is not None]
+    if len(rets) != 1:
+        raise AnalysisError("to_json_dict: not one return")
+    by = _entries_of(w, wflow, rets[0])
+    same = lambda e, what: str(norm(e)).replace(" ", "") in (what, "dict(%s)" % what, "%s.copy()" % what, "{**%s}" % what, "str(%s)" % what if what == "self.path" else what)
+    for key, what in (("attr", "self.attr"), ("path", "self.path")):
+        if key not in by:
+            ctx.ob("FileInfo.to_json_dict.%s" % key, False, "no key %r" % key, "%r: %s" % (key, what), node=rets[0], func=w)
+            continue
+        v = wflow.resolve(by[key], at=rets[0], depth=3)
+        if not same(v, what):
+            if any(isinstance(n_, (ast.DictComp, ast.ListComp, ast.Call, ast.GeneratorExp)) for n_ in ast.walk(v)):
+                raise AnalysisError("to_json_dict: %r is written as %s - the values are transformed on their way into the file; whether every value the "
+                                    "file format can hold (None, numbers, strings, lists, dictionaries) comes back as itself is not visible to the rules" % (key, str(norm(v))[:80]))
+            ctx.ob("FileInfo.to_json_dict.%s" % key, False, "%r: %s" % (key, norm(v)), "%r: %s" % (key, what), node=rets[0], func=w)
+        else:
+            ctx.ob("FileInfo.to_json_dict.%s" % key, True, "%r: %s" % (key, norm(v)), "%r: %s" % (key, what), node=rets[0], func=w)
+    # the reader: cls(json_dict['path'], times, json_dict['attr'])
+    jd = r.params[1] if len(r.params) > 1 else r.params[0]
+    rr = [x for x in walk_no_nested(r.node) if isinstance(x, ast.Return) and x.value is not None]
+    if len(rr) != 1:
+        raise AnalysisError("from_json_dict: not one return")
+    c = rflow.resolve(rr[0].value, at=rr[0], depth=2)
+    if not (isinstance(c, ast.Call) and norm(c.func) in ("cls", "FileInfo")):
+        raise AnalysisError("from_json_dict: the returned value is not a call of the constructor")
+    from ..calls import bind_args
+    init = ctx.func(HCOMMON, "FileInfo.__init__")
+    names = init.params[1:]
+    bound = {}
+    for i_, a_ in enumerate(c.args):
+        if i_ < len(names):
+            bound[names[i_]] = a_
+    for k_ in c.keywords:
+        if k_.arg:
+            bound[k_.arg] = k_.value
+    for pname, key in ((names[0], "path"), (names[2] if len(names) > 2 else "attr", "attr")):
+        got = bound.get(pname)
+        gv = rflow.resolve(got, at=rr[0], depth=2) if got is not None else None
+        txt = str(norm(gv)).replace('"', "'") if gv is not None else None
+        ok = txt in ("%s['%s']" % (jd, key), "dict(%s['%s'])" % (jd, key))
+        if not ok and gv is not None and "%s['%s']" % (jd, key) not in txt:
+            ctx.ob("FileInfo.from_json_dict.%s" % key, False, "%s = %s" % (pname, txt), "%s = %s['%s']" % (pname, jd, key), node=rr[0], func=r)
+        elif not ok:
+            raise AnalysisError("from_json_dict: %s = %s - a transformation of the stored value the rules cannot judge" % (pname, txt))
+        else:
+            ctx.ob("FileInfo.from_json_dict.%s" % key, True, "%s = %s" % (pname, txt), "%s = %s['%s']" % (pname, jd, key), node=rr[0], func=r)
 
 
 def _compatible(wk, rk):
@@ -561,5 +702,7 @@ def rule_filesystem(ctx):
 def run(ctx):
     from ..calendar_rule import rule_leap
     ctx.attempt(rule_leap, ctx, "C15.calendar", ['typhon/files/fileset.py', 'typhon/files/handlers/common.py'])
-    for r in (rule_order, rule_load, rule_register, rule_format, rule_lookup, rule_entries, rule_filesystem):
+    for r in (rule_order, rule_load, rule_register, rule_format, rule_attr, rule_lookup, rule_entries, rule_filesystem):
         ctx.attempt(r, ctx)
+    from ..early import rule_early_table
+    rule_early_table(ctx, "C15.answer", [(FILESET, "FileSet.load_cache", ("load", "loads"), "reading the cache file", ())])
